@@ -453,7 +453,11 @@ func (e *kvElection) attemptPriorityTakeover(payloadBytes []byte) error {
 
 	var currentPayload leadershipPayload
 	if err := json.Unmarshal(entry.Value(), &currentPayload); err != nil {
-		return e.attemptAcquire()
+		// The record is not ours and cannot be interpreted: it is still a live
+		// record, so there is nothing to take over. Retrying here would recurse
+		// without bound (attemptAcquire -> attemptPriorityTakeover -> ...) for
+		// as long as the record stays unparsable.
+		return fmt.Errorf("leadership record is not a valid payload: %w", err)
 	}
 
 	if e.cfg.Priority <= currentPayload.Priority {
